@@ -127,6 +127,9 @@ def rw_inline_closure(text, name, log):
             decl = (i, close)
             break
     if decl is None:
+        if not any(t[1] == name for t in st):
+            log.append('R5 closure `%s` not present (already inlined in the source): nothing to do' % name)
+            return text
         raise AnchorLost('R5: closure `let %s = || {..};` not found' % name)
     i, close = decl
     body = text[st[i + 4][2]:st[close][3]]
@@ -497,6 +500,14 @@ def rw_lift_job(text, arg, log):
     """R6: `RECV.execute(move || { BODY });` -> `CALL;` and BODY returned for a separate fn.
     arg: 'callname(args...)'"""
     st = rtok.sig(rtok.lex(text))
+    # `.execute(move || EXPR)` without braces is the same closure as `.execute(move || { EXPR })`
+    for i in range(len(st) - 6):
+        if st[i][1] == '.' and st[i + 1][1] == 'execute' and st[i + 2][1] == '(' and st[i + 3][1] == 'move' \
+                and st[i + 4][1] == '||' and st[i + 5][1] != '{':
+            pclose = rtok.match_close(st, i + 2)
+            text = text[:st[i + 5][2]] + '{ ' + text[st[i + 5][2]:st[pclose][2]] + ' }' + text[st[pclose][2]:]
+            st = rtok.sig(rtok.lex(text))
+            break
     for i in range(len(st) - 6):
         if st[i][1] == '.' and st[i + 1][1] == 'execute' and st[i + 2][1] == '(' and st[i + 3][1] == 'move' \
                 and st[i + 4][1] == '||' and st[i + 5][1] == '{':
@@ -630,7 +641,25 @@ driver_fn_shape = None   # set by driver (avoids a circular import)
 KNOWN_FN_NAMES = set()   # names of every function under contract and of every `fn` of the prelude (filled by driver.assemble)
 
 
-def rw_inline_helpers(text, src, log, depth=0):
+def _split_args(st, open_i, close_i):
+    """top-level comma split of the argument tokens st[open_i+1 : close_i] -> [(first, end)]"""
+    out = []
+    d = 0
+    a = open_i + 1
+    for k in range(open_i + 1, close_i + 1):
+        u = st[k][1]
+        if k == close_i or (u == ',' and d == 0):
+            if k > a:
+                out.append((a, k))
+            a = k + 1
+        elif u in ('(', '[', '{'):
+            d += 1
+        elif u in (')', ']', '}'):
+            d -= 1
+    return out
+
+
+def rw_inline_helpers(text, src, log, depth=0, scope=None):
     """R18: `helper(a, b)?` / `helper(a, b)` where `helper` is a free function defined in the same source file, neither under contract nor
     modelled by a stand-in, is replaced by a block `{ let (p1, p2): (T1, T2) = (a, b); BODY }`.  Only the simple shapes are handled:
     no generics, no `self`, no `return Ok`/bare `return`; a body using `?` or `return Err(..)` requires the call to be followed by `?`
@@ -646,14 +675,27 @@ def rw_inline_helpers(text, src, log, depth=0):
     own = st[1][1] if st[0][1] == 'fn' else None
     for i in range(body_open + 1, len(st) - 1):
         t = st[i]
-        if t[0] != 'ident' or st[i + 1][1] != '(' or st[i - 1][1] in ('.', '::', 'fn', '!'):
+        if t[0] != 'ident' or st[i + 1][1] != '(' or st[i - 1][1] in ('::', 'fn', '!'):
+            continue
+        is_method = st[i - 1][1] == '.'
+        if is_method and not (st[i - 2][1] == 'self' and st[i - 3][1] not in ('.', '::') and scope):
             continue
         name = t[1]
         if name in KNOWN_FN_NAMES or name == own or not re.match(r'^[a-z_][a-z0-9_]*$', name):
             continue
-        try:
-            h = extract.find_fn(src, None, name)
-        except (extract.AnchorLost, rtok.LexError):
+        h = None
+        cands = [None]
+        if is_method:
+            # the impl block of the caller, then the inherent impl of the same Self type
+            ty = scope.split(' for ')[-1].replace('impl', '').strip()
+            cands = [scope, 'impl ' + ty]
+        for sc in cands:
+            try:
+                h = extract.find_fn(src, sc, name)
+                break
+            except (extract.AnchorLost, rtok.LexError):
+                continue
+        if h is None:
             continue
         hst = rtok.sig(rtok.lex(h['text']))
         fn_i = next(k for k, x in enumerate(hst) if x[1] == 'fn')
@@ -677,6 +719,9 @@ def rw_inline_helpers(text, src, log, depth=0):
                 seg = hst[a:k]
                 if seg:
                     words = [x[1] for x in seg]
+                    if is_method and words in (['&', 'self'], ['self'], ['&', 'mut', 'self']):
+                        a = k + 1
+                        continue
                     if 'self' in words or ':' not in words:
                         okp = False
                         break
@@ -706,6 +751,28 @@ def rw_inline_helpers(text, src, log, depth=0):
         if (has_q or rets) and not (followed_q and is_result):
             continue
         args = text[st[i + 2][2]:st[cc - 1][3]] if cc > i + 2 else ''
+        # parameters whose argument is a plain place expression (`x`, `&x`, `&x.f`) are substituted into the body instead of bound by a
+        # `let`: a binding `let p: &T = &arc;` goes through Deref, which loses the identity of the value for the verifier
+        arg_parts = [text[st[a0][2]:st[b0 - 1][3]].strip() for a0, b0 in _split_args(st, i + 1, cc)] if cc > i + 2 else []
+        subst = {}
+        if len(arg_parts) == len(params):
+            body_binders = set(re.findall(r'\blet\s+(?:mut\s+)?(\w+)', body)) | set(re.findall(r'\bfor\s+(\w+)\s+in\b', body)) | set(re.findall(r'\|\s*(\w+)\s*\|', body))
+            keep_p, keep_a = [], []
+            for (pat, ty), av in zip(params, arg_parts):
+                pname = pat.split()[-1]
+                simple = re.match(r'^&?\s*(mut\s+)?[a-z_]\w*(\.\w+)*$', av) is not None
+                idents = set(re.findall(r'[a-z_]\w*', av)) - {'mut'}
+                assigned = re.search(r'\b%s\s*(=[^=]|\+=|-=)' % re.escape(pname), body) is not None
+                if simple and not pat.startswith('mut') and pname not in body_binders and not (idents & body_binders) and not assigned:
+                    subst[pname] = av if re.match(r'^[a-z_]\w*$', av) else '(' + av + ')'
+                else:
+                    keep_p.append((pat, ty))
+                    keep_a.append(av)
+            if subst:
+                # simultaneous whole-word substitution (not after `.` or `::`: field and path names are left alone)
+                pat_re = re.compile(r'(?<![\w.:])(' + '|'.join(re.escape(k) for k in subst) + r')(?!\w)')
+                body = pat_re.sub(lambda m: subst[m.group(1)], body)
+                params, args = keep_p, ', '.join(keep_a)
         if len(params) == 0:
             bind = ''
         elif len(params) == 1:
@@ -732,6 +799,9 @@ def rw_inline_helpers(text, src, log, depth=0):
                 continue
             stmts = h['text'][hst[hb_open][3]:bst[k - 1][2]]
             val = h['text'][bst[k][3]:bst[-1][2]]
+            if subst:
+                stmts = pat_re.sub(lambda m: subst[m.group(1)], stmts)
+                val = pat_re.sub(lambda m: subst[m.group(1)], val)
             repl = '{ ' + bind + stmts + ' ' + (val if val.strip() else '()') + ' }'
             end = st[cc + 1][3]
         else:
@@ -739,9 +809,9 @@ def rw_inline_helpers(text, src, log, depth=0):
             end = st[cc][3]
         # keep the line count of the caller: the inlined text goes on one line
         repl = ' '.join(l.split('//')[0].strip() if '//' in l and '"' not in l else l.strip() for l in repl.split('\n'))
-        new = text[:t[2]] + repl + text[end:]
-        log.append('R18 call of private helper `%s` (no contract, same file) inlined as a block' % name)
-        return rw_inline_helpers(new, src, log, depth + 1)
+        new = text[:(st[i - 2][2] if is_method else t[2])] + repl + text[end:]
+        log.append('R18 call of private helper `%s%s` (no contract, same file) inlined as a block' % ('self.' if is_method else '', name))
+        return rw_inline_helpers(new, src, log, depth + 1, scope)
     return text
 
 
@@ -858,8 +928,15 @@ def build_fn(fs, repo, effectful, table_keys, canary=False):
         elif fs.slice['kind'] == 'jobbody':
             # R6: body of the closure passed to .execute(move || {..}) inside `within`
             _, body, line0 = rw_lift_job(otext, 'x', [])
-            s_off = otext.index(body) + 1
-            e_off = s_off + len(body) - 2
+            if body not in otext:
+                # brace-less closure: the braces were added by rw_lift_job; slice the expression itself
+                inner = body[1:-1].strip()
+                s_off = otext.index(inner) - 1
+                e_off = s_off + 1 + len(inner)
+                otext = otext[:s_off] + ' ' + otext[s_off + 1:]
+            else:
+                s_off = otext.index(body) + 1
+                e_off = s_off + len(body) - 2
         else:
             raise specmod.SpecError('unknown slice kind')
         body_text = otext[s_off:e_off]
@@ -884,7 +961,7 @@ def build_fn(fs, repo, effectful, table_keys, canary=False):
 
     # ---- R18: calls of private helpers of the same file that have no contract and no stand-in are inlined (before every other rewrite)
     if not fs.external:
-        text = rw_inline_helpers(text, src, log)
+        text = rw_inline_helpers(text, src, log, 0, (fs.slice.get('within').rpartition('::')[0].strip() or None) if fs.slice else fs.scope)
 
     # ---- pre-pass rewrites
     for kind, arg, origin in fs.rewrites:
